@@ -1371,7 +1371,7 @@ func (h H) taskReplyPublishes(rule string) {
 // handler that changes the log first stops the replications and waits for
 // them (leader.stopRepls, the same routine release uses).
 func (h H) logChangedOnlyWithoutReaders(rule string) {
-	sr := h.fn("raft:(*leader).stopRepls")
+	sr := h.P.FuncOpt("raft:(*leader).stopRepls")
 	if sr == nil {
 		h.C.Check(rule+" stop-routine", "(*leader).stopRepls", false, "", "no routine stops the replications and waits for them")
 		return
@@ -1454,4 +1454,124 @@ func waitsOnEveryPath(fn *ssa.Function) bool {
 		}
 	}
 	return true
+}
+
+// logReadersComplete (C15.13 / C09.11): the replication of a node dropped from
+// the configuration is stopped without being waited for; until its goroutine
+// has ended it can still read the log through its view. What bounds log
+// compaction therefore ranges over leader.logReaders() — the running
+// replications and the stopped ones that have not ended — and the pieces that
+// make that set right are: changeConfig hands every replication it stops to
+// leader.stopped; the replication's goroutine closes its done channel when
+// runLoop has returned; logReaders leaves out a stopped replication only after
+// receiving from done.
+func (h H) logReadersComplete(rule string) {
+	lr := h.P.FuncOpt("raft:(*leader).logReaders")
+	if lr == nil {
+		h.C.Check(rule+" reader-set", "(*leader).logReaders", false, "", "no routine enumerates the goroutines that still read the log")
+		return
+	}
+	fi := h.P.Info(lr)
+	isAppend := func(in ssa.Instruction) bool {
+		c, ok := in.(*ssa.Call)
+		if !ok {
+			return false
+		}
+		b, ok := c.Common().Value.(*ssa.Builtin)
+		return ok && b.Name() == "append"
+	}
+	// every running replication is in the set
+	okRun := false
+	if hd := fi.RangeHeader("leader.repls", 0); hd != nil {
+		okRun = fi.LoopBodyMustPass(hd, isAppend).OK
+	}
+	h.C.Check(rule+" reader-set running", "(*leader).logReaders range repls", okRun, h.fpos(lr), "a running replication can be left out of the set of log readers")
+	// a stopped one is left out only after its done channel delivered
+	okStopped := false
+	if hd := sliceRangeHeader(fi, "leader.stopped"); hd != nil {
+		r := fi.LoopBodyMustCrossOrPass(hd, func(a core.Atom) bool {
+			// the receive case of a select on <repl>.done was taken
+			if !strings.HasPrefix(a.L, "select@") || a.Op != "==" {
+				return false
+			}
+			for _, in := range hd.Parent().Blocks {
+				for _, x := range in.Instrs {
+					if sel, ok := x.(*ssa.Select); ok && strings.HasPrefix(a.L, fi.Sym(sel).String()+"#0") {
+						for k, st := range sel.States {
+							if st.Dir == types.RecvOnly && strings.HasSuffix(fi.Sym(st.Chan).String(), ".done") && a.R == fmt.Sprint(k) {
+								return true
+							}
+						}
+					}
+				}
+			}
+			return false
+		}, isAppend)
+		okStopped = r.OK
+	}
+	h.C.Check(rule+" reader-set stopped", "(*leader).logReaders range stopped", okStopped, h.fpos(lr), "a stopped replication can be left out of the set of log readers although its goroutine has not signalled its end (done)")
+	// changeConfig hands over what it stops
+	n := 0
+	for _, fn := range h.P.Funcs() {
+		if fn.Pkg == nil || fn.Pkg.Pkg.Name() != "raft" || h.name(fn) == "(*leader).stopRepls" {
+			continue
+		}
+		ffi := h.P.Info(fn)
+		core.Instrs(fn, func(in ssa.Instruction) {
+			c, ok := in.(*ssa.Call)
+			if !ok {
+				return
+			}
+			b, ok := c.Common().Value.(*ssa.Builtin)
+			if !ok || b.Name() != "close" {
+				return
+			}
+			arg := ffi.Sym(c.Common().Args[0]).String()
+			if !strings.HasSuffix(arg, ".stopCh") || !strings.Contains(arg, "repls") {
+				return
+			}
+			n++
+			r := ffi.AlwaysFollowedBy(in, func(i ssa.Instruction) bool {
+				st, ok := i.(*ssa.Store)
+				return ok && strings.HasSuffix(ffi.Sym(st.Addr).String(), ".stopped") && strings.Contains(ffi.Sym(st.Val).String(), "append(")
+			})
+			h.C.Check(rule+" stopped-handed-over", fmt.Sprintf("%s close(%s)", h.name(fn), arg), r.OK, h.pos(in), "a replication is stopped without being waited for and is not kept among the log readers: compaction no longer considers it while its goroutine can still read the log through its view")
+		})
+	}
+	h.C.Floor(rule+" (single replication stops)", n, 1)
+	// the goroutine signals its end
+	ar := h.fn("raft:(*leader).addReplication")
+	rl := h.fn("raft:(*replication).runLoop")
+	okDone := false
+	for _, g := range h.P.GoSites(ar) {
+		cl := core.ClosureOf(g.Call.Value)
+		if cl == nil {
+			continue
+		}
+		cfi := h.P.Info(cl)
+		var run ssa.Instruction
+		core.Instrs(cl, func(in ssa.Instruction) {
+			if h.P.IsCallTo(in, rl) {
+				run = in
+			}
+		})
+		if run == nil {
+			continue
+		}
+		core.Instrs(cl, func(in ssa.Instruction) {
+			switch x := in.(type) {
+			case *ssa.Defer:
+				if b, ok := x.Call.Value.(*ssa.Builtin); ok && b.Name() == "close" && strings.HasSuffix(cfi.Sym(x.Call.Args[0]).String(), ".done") && core.Dominates(in, run) {
+					okDone = true
+				}
+			case *ssa.Call:
+				if b, ok := x.Call.Value.(*ssa.Builtin); ok && b.Name() == "close" && strings.HasSuffix(cfi.Sym(x.Call.Args[0]).String(), ".done") && core.Dominates(run, in) {
+					okDone = true
+				}
+			}
+		})
+	}
+	h.C.Check(rule+" end-signalled", "(*leader).addReplication goroutine", okDone, h.fpos(ar), "the replication goroutine does not close its done channel when runLoop has returned")
+	ok, why := h.storesOnEveryPath(ar, "new:replication#1.done", func(v string, _ *ssa.Store) bool { return strings.HasPrefix(v, "makechan") })
+	h.C.Check(rule+" end-signalled", "(*leader).addReplication done channel", ok, h.fpos(ar), "a replication is created without its done channel: "+why)
 }
